@@ -28,6 +28,7 @@ Proof.
   - intros s cs tys ty Ec Et Hin. assert (X : nth_error (sS (St c s1)) s = Some (fS cs)) by (unfold sS; rewrite nth_error_map; unfold St in *; rewrite Ec; reflexivity).
     unfold St in X. rewrite <- D2, nth_error_map in X. destruct (nth_error (c_subs c) s) as [[[w cap] tz]|] eqn:Es; [|discriminate]. cbn in X. unfold fS in X. inversion X as [[Y Z]].
     rewrite Et in Y. destruct (w =? 1)%Z; [discriminate|]. inversion Y; subst tys. apply in_map_iff in Hin. destruct Hin as [z [<- Hz]].
+    assert (Hz' : In z tz) by (unfold vtys in Hz; destruct (Z.leb 2 w); [destruct Hz|exact Hz]). clear Hz. rename Hz' into Hz.
     rewrite forallb_forall in H1. specialize (H1 _ (nth_error_In _ _ Es)). cbn in H1. repeat (apply andb_true_iff in H1; destruct H1 as [H1 ?]).
     rewrite forallb_forall in H4. unfold NT. apply in_range_nat, H4, Hz.
 Qed.
